@@ -11,7 +11,9 @@ open SpatialId
 theorem ConvertAltitudekeyToMinMaxZ_eq (k zk zo E O : Int) :
     Gen.ConvertAltitudekeyToMinMaxZ k zk zo E O = k2z k zk zo E O := by
   unfold Gen.ConvertAltitudekeyToMinMaxZ k2z
-  simp only [Id.run, id_pure, gen_helper, CalculateArithmeticShift_eq]
+  simp only [Id.run, id_pure, gen_helper, CalculateArithmeticShift_eq, validateIndexExists_eq]
+  -- (a rewrite may call the index check where the function used to compare by hand: the model's check is then opened too)
+  try simp only [validateIndex, if_true, ite_true, Bool.false_eq_true, if_false, decide_eq_true_eq, Bool.decide_eq_true]
   tie_auto
 
 end SpatialId.Tie
